@@ -67,8 +67,11 @@ Definition c06_b (zslack : Q) (hot cold : list view) (cands : list Q) (cold_temp
         (* every clear zero outside [tc, th] must belong to a zero run reaching that end of the range *)
         let run_above := forallb (fun p => negb (qleb th (fst p)) || zr p) rs in
         let run_below := forallb (fun p => negb (qleb (fst p) tc) || zr p) rs in
-        let above_ok := run_above || negb (existsb (fun p => surer p && qltb th (fst p)) rs) in
-        let below_ok := run_below || negb (existsb (fun p => surer p && qltb (fst p) tc) rs) in
+        (* "outside" means by more than the grid's rounding unit: reported pinches are 6-decimal grid values while the
+           candidates are unrounded stream bounds, so a candidate may sit ~1e-14 beside the reported temperature *)
+        let tsl := 2 # 1000000 in
+        let above_ok := run_above || negb (existsb (fun p => surer p && qltb (th + tsl) (fst p)) rs) in
+        let below_ok := run_below || negb (existsb (fun p => surer p && qltb (fst p) (tc - tsl)) rs) in
         if negb (above_ok && below_ok) then [V_PROP_FALSE; 64%Z]
         else
           (* threshold: when the residual is clearly zero at the top (bottom) end of the range, the run of zeros from that
